@@ -176,7 +176,7 @@ theorem roundtrip_of_wf (b : Board) (hw : WF b) (hep : b.ep < 64) (h0 : 0 ≤ b.
   rw [hpos]
   simp only [bind_ok]
   rw [hsc']
-  congr 1
+  refine congrArg PR.ok ?_
   obtain ⟨s1, s2, s3, s4, s5, s6⟩ := hsc
   apply board_eq
   · exact e1
